@@ -687,9 +687,17 @@ func Trace(args []string) {
 	rng := rand.New(rand.NewSource(common.Seed()))
 	var all bytes.Buffer
 	nev := 0
+	// the hook variable is written once; which tracer receives the events is switched atomically (a goroutine of the
+	// runtime that outlives a run must not race with the next run's set-up)
+	var cur atomic.Pointer[tracer]
+	wasm.VerifTracer = func(e wasm.VerifEvent) {
+		if t := cur.Load(); t != nil {
+			t.hook(e)
+		}
+	}
 	for r := 0; r < runs; r++ {
 		tr := &tracer{out: &bytes.Buffer{}, drop: common.Arg(args, "-drop", "")}
-		wasm.VerifTracer = tr.hook
+		cur.Store(tr)
 		engine := "interpreter"
 		if r%4 == 3 {
 			engine = "compiler"
@@ -699,7 +707,7 @@ func Trace(args []string) {
 			th = 2
 		}
 		tr.run(rng, th, nops, engine)
-		wasm.VerifTracer = nil
+		cur.Store(nil)
 		if r > 0 {
 			all.WriteString(`{"ev":"reset"}` + "\n")
 			nev++
